@@ -136,7 +136,12 @@ func checkC19() fw.Check {
 			for _, m := range []string{"sack", "prefer_sack"} {
 				for _, qe := range [][2]int{{2, 2}, {1, 3}, {3, 1}} {
 					m, qe := m, qe
-					cases = append(cases, fw.Case{ID: fmt.Sprintf("C19/sack-mixed/%s/q%d-e%d", m, qe[0], qe[1]), Bubble: true, Run: func(c *fw.Ctx) { runC19SackMixed(c, c.ID, m, qe[0], qe[1]) }})
+					cases = append(cases, fw.Case{ID: fmt.Sprintf("C19/sack-mixed/%s/q%d-e%d", m, qe[0], qe[1]), Bubble: true, Run: func(c *fw.Ctx) { runC19SackMixed(c, c.ID, m, qe[0], qe[1], 1, 4) }})
+				}
+				// first TTL above 1 (library callers) and windows at the top of the range, with the SACK method
+				for _, w := range [][2]int{{2, 4}, {3, 9}, {5, 5}, {250, 255}, {255, 255}, {30, 64}} {
+					m, w := m, w
+					cases = append(cases, fw.Case{ID: fmt.Sprintf("C19/sack-mixed/%s/ttl%d-%d", m, w[0], w[1]), Bubble: true, Run: func(c *fw.Ctx) { runC19SackMixed(c, c.ID, m, 1, 1, w[0], w[1]) }})
 				}
 			}
 			for i := 0; i < len(reqs); i += batch {
@@ -388,12 +393,11 @@ func runC19(c *fw.Ctx, id string, rq c19Req) {
 	c.Sample(map[string]any{"request": rq.String(), "ttls_on_wire": len(got), "outcome": outcome})
 }
 
-func runC19SackMixed(c *fw.Ctx, id, method string, q, e2e int) {
+func runC19SackMixed(c *fw.Ctx, id, method string, q, e2e, minTTL, maxTTL int) {
 	resetProcessState()
 	target := netip.AddrFrom4([4]byte{10, 204, byte(160 + c.Worker), 9})
 	port := uint16(23000 + c.Worker)
-	const maxTTL = 4
-	params := traceroute.TracerouteParams{Hostname: target.String(), Port: int(port), Protocol: "tcp", MinTTL: 1, MaxTTL: maxTTL, Delay: 5,
+	params := traceroute.TracerouteParams{Hostname: target.String(), Port: int(port), Protocol: "tcp", MinTTL: minTTL, MaxTTL: maxTTL, Delay: 5,
 		Timeout: 300 * time.Millisecond, TCPMethod: traceroute.TCPMethod(method), TracerouteQueries: q, E2eQueries: e2e}
 	env, err := newReqEnv(c, params, target, port, true)
 	if err != nil {
@@ -431,8 +435,8 @@ func runC19SackMixed(c *fw.Ctx, id, method string, q, e2e int) {
 				seg++
 			}
 		}
-		full := len(ttls) == maxTTL
-		for t := 1; t <= maxTTL && full; t++ {
+		full := len(ttls) == maxTTL-minTTL+1
+		for t := minTTL; t <= maxTTL && full; t++ {
 			full = ttls[t] == 1
 		}
 		switch {
@@ -444,8 +448,8 @@ func runC19SackMixed(c *fw.Ctx, id, method string, q, e2e int) {
 			other++
 		}
 	}
-	c.Nontrivial(fmt.Sprintf("sack-mixed/%s/q%d-e%d", method, q, e2e))
+	c.Nontrivial(fmt.Sprintf("sack-mixed/%s/q%d-e%d/ttl%d-%d", method, q, e2e, minTTL, maxTTL))
 	if sackRuns != q || synE2e != e2e || other != 0 {
-		c.Violate("C19", "wrong-kind/tcp-mixed/"+method, fmt.Sprintf("%s: tcp method %q with %d runs and %d end-to-end probes against a SACK-capable target put on the wire: %d SACK runs over TTL 1..%d, %d single SYN probes at TTL %d, %d other senders", id, method, q, e2e, sackRuns, maxTTL, synE2e, maxTTL, other), nil)
+		c.Violate("C19", "wrong-kind/tcp-mixed/"+method, fmt.Sprintf("%s: tcp method %q with %d runs and %d end-to-end probes against a SACK-capable target put on the wire: %d SACK runs over TTL %d..%d, %d single SYN probes at TTL %d, %d other senders", id, method, q, e2e, sackRuns, minTTL, maxTTL, synE2e, maxTTL, other), nil)
 	}
 }
